@@ -362,8 +362,8 @@ func ZZ_C15_OracleRoundTrip() {
 		return
 	}
 	vrt.Reach("c15.oracle.roundtrip")
-	vrt.Assert("c15.oracle.preserved[epoch]", b.k.GetCurrentEpoch(b.ctx) == E)
+	vrt.Check("c15.oracle.preserved[epoch]", b.k.GetCurrentEpoch(b.ctx) == E)
 	pa, pb := k.GetPrices(ctx), b.k.GetPrices(b.ctx)
-	vrt.Assert("c15.oracle.preserved[prices]", pb != nil && len(pa.List) == len(pb.List) && pa.List[0].Value.Equal(pb.List[0].Value))
-	vrt.Assert("c15.oracle.preserved[holders]", zzSameHolders(k.GetHolders(ctx), b.k.GetHolders(b.ctx)))
+	vrt.Check("c15.oracle.preserved[prices]", pb != nil && len(pa.List) == len(pb.List) && pa.List[0].Value.Equal(pb.List[0].Value))
+	vrt.Check("c15.oracle.preserved[holders]", zzSameHolders(k.GetHolders(ctx), b.k.GetHolders(b.ctx)))
 }
